@@ -14,6 +14,8 @@ CONSTANTS
   Fall = 1
   MaxRounds = 5
   MaxConns = 6
+  MaxHalf = 2
+  WatcherLeaves = {}
   MaxToggles = 2
   TargetLen = 14
 CHECK_DEADLOCK FALSE
